@@ -1,7 +1,7 @@
 SPECIFICATION Spec
 CONSTANTS
   MaxLen = 3
-  MaxPool = 6
+  MaxPool = 7
   Emit = TRUE
 INVARIANT ContentKept
 INVARIANT EmitState
